@@ -8,6 +8,12 @@ from vlib import svsim, cosim
 
 # (text of a tiny module, inputs, expected outputs) - hand computed from IEEE 1800-2017 11.6 / 6.24.1
 LRM_CASES = [
+  # `int` is a signed type and an unsized decimal literal is signed: a down-counting loop stops below zero (6.11, 11.8.1) ...
+  ("module t(input logic [7:0] a, output logic [7:0] o); always_comb begin o = 0; for (int i = 5; i > 0; i -= 2) o = o + a; end endmodule",
+   {"a": 3}, {"o": 9}),
+  # ... and counts 4, 2 (not 0) when it lands exactly on the bound
+  ("module t(input logic [7:0] a, output logic [7:0] o); always_comb begin o = 0; for (int i = 4; i > 0; i -= 2) o = o + a; end endmodule",
+   {"a": 3}, {"o": 6}),
   # context-determined addition keeps the carry when the target is wider (11.6.2 example: sumA = a + b)
   ("module t(input logic [3:0] a, input logic [3:0] b, output logic [4:0] o); assign o = a + b; endmodule",
    {"a": 15, "b": 1}, {"o": 16}),
